@@ -391,6 +391,10 @@ func (p *cparser) primary() CE {
 	case token.INT, token.CHAR, token.STRING:
 		return &CLit{t.tok, t.lit}
 	case token.IDENT:
+		if t.lit == "forall" || t.lit == "exists" {
+			p.i--
+			return p.expr()
+		}
 		return &CIdent{t.lit}
 	case token.LPAREN:
 		e := p.expr()
